@@ -31,6 +31,10 @@ def spl_contract_cases(seed, count, max_side, tag):
                     sp["A"] = [str(rng.randint(1, 50)) for _ in range(n)]
                 if rng.random() < 0.3:
                     sp["setters"] = 1
+                if rng.random() < 0.5:
+                    # a history of slope-exponent requests on one separate eroder, with repeats
+                    vals = [rng.choice(["1", "1.5", "2", "0.5"]) for _ in range(rng.randint(2, 4))]
+                    sp["probe"] = [v for v in vals for _ in range(rng.choice([1, 1, 2, 3]))]
                 steps.append(sp)
             # one eroder object serves several steps while the graph changes under it (mask, base
             # levels, other fields): nodes become terminal / masked / lakes between two calls
